@@ -126,6 +126,22 @@ class Sig:
 
 
 class NPS(NPProxy):
+    def sqrt(self, a):
+        """root symbols carry their radicand (`.of`) but the defining square is NOT put on
+        the path condition: it would turn every later (linear) query into a non-linear one"""
+        def one(v):
+            if S.is_sym(v):
+                r = S.eng().fresh("sqrt")
+                S.eng().assume(r >= 0)
+                return S.SymRoot(r, S.lift(v))
+            return np.sqrt(float(v))
+        if isinstance(a, np.ndarray) and a.dtype == object:
+            out = np.empty(a.shape, dtype=object)
+            for idx in np.ndindex(*a.shape):
+                out[idx] = one(a[idx])
+            return out
+        return one(a) if S.is_sym(a) else np.sqrt(a)
+
     def vstack(self, tup):
         r = np.vstack(tup)
         return r.view(SArr) if r.dtype == object else r
@@ -301,8 +317,9 @@ def hist_fn(Q, sr, freqs, N, Hc, combos, tolrel):
                     else:
                         ms = z3.Sum([_t(hist[i, h, fi]) * _t(hist[i, h, fi]) for i in range(hist.shape[0])]) / hist.shape[0]
                         v = sh[fi, h]
+                        sq = v.of if isinstance(v, S.SymRoot) else _t(v) * _t(v)
                         obls.append(E.Obl("srs %s/%s/%s rms f=%g col %d: spectrum^2 is the mean square of the history" % (stype, ic, timeopt, fnq, h),
-                                          z3.And(_t(v) >= 0, _t(v) * _t(v) == ms), info=info))
+                                          sq == ms, info=info))
                     eng.tag("peak-stat")
         return obls
     return fn
